@@ -338,3 +338,50 @@ fn c10_recv_n_step() {
     assert!(!(n as usize >= left), "CANARY: finished reachable");
     assert!(n != 0, "CANARY: eof reachable");
 }
+
+/// recv_n_vectored step (2 buffers)
+//@waker_stubs
+#[kani::proof]
+#[kani::unwind(4)]
+fn c10_recv_n_vectored_step() {
+    let mut ring = FakeSq::<2>::new(0, 0, 0);
+    let subs = subs_of(ring.shared(2, false, false));
+    let (afd, _fdn, _kind) = mk_fd(&subs);
+    let b0 = any_rb(0);
+    let b1 = any_rb(1);
+    let spare0 = b0.cap - b0.len;
+    let spare1 = b1.cap - b1.len;
+    kani::assume(spare0 + spare1 >= 1);
+    let left: usize = kani::any();
+    kani::assume(left >= 1);
+    let fl: u32 = kani::any();
+    let mut rd = afd.recv_n_vectored((b0, b1), left).flags(RecvFlag(fl));
+    let n: u32 = kani::any();
+    kani::assume(n <= spare0 + spare1);
+    force_done(&rd.recv.state, n as i32, 0);
+    env::fallback_as_identity();
+    env::use_poll_contract();
+    env::cut_at_repoll();
+    let waker = env::waker(4);
+    let mut ctx = Context::from_waker(&waker);
+    let r = unsafe { Pin::new_unchecked(&mut rd) }.poll(&mut ctx);
+    let first = if n < spare0 { n } else { spare0 };
+    if n == 0 {
+        assert!(matches!(&r, Poll::Ready(Err(e)) if e.kind() == io::ErrorKind::UnexpectedEof));
+    } else if n as usize >= left {
+        assert!(matches!(&r, Poll::Ready(Ok(b)) if b.0.len == b0.len + first && b.1.len == b1.len + (n - first)), "done: bytes appended front to back");
+    } else {
+        assert!(r.is_pending() && unsafe { env::E.repoll_entries } == 2);
+        assert!(status_any(&rd.recv.state) == St::NotStarted && rd.left == left - n as usize);
+        let res = peek_resources(&rd.recv.state);
+        assert!(res.0.buf.0.len == b0.len + first && res.0.buf.1.len == b1.len + (n - first));
+        let iov = &res.2;
+        assert!(iov[0].len() as u32 == spare0 - first && iov[1].len() as u32 == spare1 - (n - first), "next receive targets the remaining capacity only");
+        assert!(rd.recv.state.args().0 == fl, "same flags on the continuation");
+    }
+    std::mem::forget(r);
+    std::mem::forget(rd);
+    assert!(!(n > 0 && (n as usize) < left && fl != 0), "CANARY: continuation with flags reachable");
+    assert!(!(n as usize >= left), "CANARY: finished reachable");
+    assert!(n != 0, "CANARY: eof reachable");
+}
